@@ -49,6 +49,15 @@ def _standin(rep, tier, seed, only_search=False):
         if cfg["weight"] == "persistence" or cfg["weight_params"].get("low", 0) == 0 and cfg["weight_params"].get("start", 0) >= 0:
             z = [[0.3, 0.3]]
             checks.append(("zero-weight-point", np.max(np.abs(ic.transform(pi, z + F) - I_F)) <= tol, {"F": F, "zero": z}))
+        checks.append(("image-has-the-configured-resolution", tuple(I_F.shape) == tuple(pi.resolution), {"F": F, "shape": list(I_F.shape), "resolution": list(pi.resolution)}))
+        if it % 5 == 0:
+            # large diagrams (dozens of points) split in two: additivity must not depend on how many points a call handles
+            nbig = rng.choice([33, 40, 64, 70])
+            Fb = ic.rand_dgm(rng, nbig, cfg)
+            cut = rng.choice([1, nbig // 2, nbig - 1, 16, 31])
+            tolb = ic.pixel_tol(Fb, cfg) * 4
+            whole = ic.transform(pi, Fb)
+            checks.append(("additive-large", np.max(np.abs(whole - (ic.transform(pi, Fb[:cut]) + ic.transform(pi, Fb[cut:])))) <= tolb, {"F": Fb, "split_at": cut}))
         E = pi.transform(np.zeros((0, 2)))
         checks.append(("empty-diagram", isinstance(E, np.ndarray) and E.shape == tuple(pi.resolution) and not E.any(), {"shape": list(np.shape(E))}))
         L = pi.transform([np.array(F), np.array(G).reshape(-1, 2) if G else np.array(F)])
